@@ -1289,10 +1289,18 @@ class BaseEvolutionOperations(object):
         sql_result = SQLResult()
         table_name = model._meta.db_table
 
-        old_unique_together = set(old_unique_together)
-        new_unique_together = set(new_unique_together)
+        # Process the entries in the order they were listed in, so that the
+        # generated SQL does not depend on set iteration order.
+        old_unique_together = self._get_ordered_unique_entries(
+            old_unique_together)
+        new_unique_together = self._get_ordered_unique_entries(
+            new_unique_together)
 
-        to_remove = old_unique_together.difference(new_unique_together)
+        to_remove = [
+            field_names
+            for field_names in old_unique_together
+            if field_names not in new_unique_together
+        ]
 
         for field_names in to_remove:
             fields = self.get_fields_for_names(model, field_names)
@@ -1347,10 +1355,18 @@ class BaseEvolutionOperations(object):
         sql_result = SQLResult()
         table_name = model._meta.db_table
 
-        old_index_together = set(old_index_together or [])
-        new_index_together = set(new_index_together)
+        # Process the entries in the order they were listed in, so that the
+        # generated SQL does not depend on set iteration order.
+        old_index_together = self._get_ordered_unique_entries(
+            old_index_together or [])
+        new_index_together = self._get_ordered_unique_entries(
+            new_index_together)
 
-        to_remove = old_index_together.difference(new_index_together)
+        to_remove = [
+            field_names
+            for field_names in old_index_together
+            if field_names not in new_index_together
+        ]
 
         for field_names in to_remove:
             fields = self.get_fields_for_names(model, field_names)
@@ -2140,6 +2156,28 @@ class BaseEvolutionOperations(object):
             return 1
         else:
             return 0
+
+    def _get_ordered_unique_entries(self, entries):
+        """Return a list of unique entries, preserving their order.
+
+        Args:
+            entries (list of tuple):
+                The ``unique_together`` or ``index_together`` entries.
+
+        Returns:
+            list of tuple:
+            The entries, as tuples, without duplicates, in their original
+            order.
+        """
+        result = []
+
+        for entry in entries:
+            entry = tuple(entry)
+
+            if entry not in result:
+                result.append(entry)
+
+        return result
 
     def _are_ops_mergeable(self, op1, op2):
         """Returns whether two operations can be merged.
